@@ -248,7 +248,8 @@ class UnicodeGenerator(object):
     def __call__(self):
         """Returns the next unicode character"""
         char = six.unichr(self.index)
-        while re.match(r'\s', char):
+        # excludes the surrogates as well, they cannot be utf8 encoded
+        while re.match(r'\s', char) or 0xD800 <= self.index <= 0xDFFF:
             self.index += 1
             char = six.unichr(self.index)
         self.index += 1
